@@ -20,7 +20,7 @@ func init() { core.SelfCheck = selfCheck }
 func selfCheck() int {
 	seen := map[string]int{}
 	bad := 0
-	for _, file := range []string{"templates.txt"} {
+	for _, file := range []string{"templates.txt", "imports.txt"} {
 		for _, t := range gen.Load(file) {
 			c, ok := gen.Canonical(t.Src)
 			if !ok || c != t.Src {
